@@ -524,11 +524,14 @@ def run_check(prop, tier="quick", seed=0, replay=None, selftest=False, ncases=No
         violations.append({"class": vclass, "what": what, "replay": path, "found": found})
 
     seen_classes = set()
+    known_case_idx = set()
     for i in sorted(set(failing) | set(spec_hits)):
         sv = spec_hits.get(i)
         c, o = cases[i], outs[i]
         if sv:
             vclass = sv.get("class", "spec")
+            if match_known(pid, vclass, known):
+                known_case_idx.add(i)
             key = ("spec", vclass)
             if key in seen_classes:
                 continue
@@ -561,8 +564,11 @@ def run_check(prop, tier="quick", seed=0, replay=None, selftest=False, ncases=No
     # (f) evidence
     n_theorems = len(pc["theorems"])
     n_eval = len(cases)
-    obligations = n_theorems + n_eval + prop.extra_obligations(ctx)
-    bad = len(set(failing)) + (0 if pc["ok"] else n_theorems) + prop.extra_failed(ctx)
+    # cases that hit a recorded known finding are reported as KNOWN-FINDING and are not counted as
+    # (discharged or undischarged) obligations of this run
+    n_known = len(known_case_idx)
+    obligations = n_theorems + (n_eval - n_known) + prop.extra_obligations(ctx)
+    bad = len(set(failing) - known_case_idx) + (0 if pc["ok"] else n_theorems) + prop.extra_failed(ctx)
     distinct = {}
     hist = {}
     for c, o in zip(cases, outs):
@@ -595,13 +601,14 @@ def run_check(prop, tier="quick", seed=0, replay=None, selftest=False, ncases=No
             "stages": info["stages"],
             "modelled": prop.modelled,
             "known_findings_hit": known_hits,
+            "cases_excluded_as_known_findings": n_known,
         },
         "assumptions": prop.assumptions,
         "wall_s": round(time.time() - t0, 2),
         "violations": len(violations),
     }
     ev["coverage"].update(prop.extra_coverage(ctx))
-    if not replay and not selftest:
+    if not replay and not selftest and not os.environ.get("VERIF_NO_EVIDENCE"):
         os.makedirs(os.path.join(VERIF, "evidence"), exist_ok=True)
         json.dump(ev, open(os.path.join(VERIF, "evidence", pid + ".json"), "w"), indent=1, default=str)
     for l in lines:
